@@ -44,7 +44,7 @@ def budget(tier):
 def strategy(tier):
     return st.builds(
         lambda g, uni, cache, a, b: {"g": g, "uni": sorted({x % g["nv"] for x in uni}) or [0], "cache": cache, "pair": [a % g["nv"], b % g["nv"]]},
-        st.one_of(graphs.graph_descs(max_v=5, max_e=8, min_v=2, min_e=1), graphs.graph_descs(max_v=5, max_e=8, min_v=2, min_e=1, wide=True, classes=11),
+        st.one_of(graphs.graph_descs(max_v=5, max_e=8, min_v=2, min_e=1), graphs.graph_descs(max_v=5, max_e=8, min_v=2, min_e=1, wide=True, classes=12),
                   # every vertex of a class that caches for itself (whatever the program-wide flag says)
                   graphs.graph_descs(max_v=4, max_e=6, min_v=2, min_e=2, wide=True, classes=4).map(lambda g: dict(g, vcls=[7]))),
         st.lists(st.integers(0, 4), min_size=1, max_size=5),
